@@ -193,7 +193,12 @@ pub mod verif {
     )
   }
 
-  pub fn number_of_iterations_to_break_guard(i0: i32, inc: i32, operator: u8, g: i32) -> Option<i32> {
+  pub fn number_of_iterations_to_break_guard(
+    i0: i32,
+    inc: i32,
+    operator: u8,
+    g: i32,
+  ) -> Option<i32> {
     super::loop_algebraic_optimization::verif::number_of_iterations_to_break_guard(
       i0, inc, operator, g,
     )
